@@ -58,7 +58,7 @@ CLAIMED.update({
         note="The VM half (every split the compiler chooses is sound w.r.t. Sem: arrows A and B of DESIGN.md) is NOT proved yet; it is covered by the P-vs-inject(P) differential, the T2/T3 ties and C01/C02's reference differential. Known finding F1 (nullable unbounded repeats handed to regex-automata). inj excludes wrapping the Alt body of a look-behind (such a pattern no longer compiles) and requires an injection into a look-behind body to keep its constant-size flag (it always does for parser-produced trees: (?=) has size 0).",
         technique="Coq induction over a custom nested induction principle for the injection relation + metamorphic differential on the real crate", design="7/C03"),
     "C05": dict(
-        text="PARTIAL. Machine-checked (Coq, closed): at the level of the reference semantics every offset and capture slot of every result of every expression stays on a character boundary within the text (C05_reference_offsets_valid); over any SearchOK search the iterators yield only valid, ordered spans and split / try_replacen never take an out-of-order, out-of-range or off-boundary slice (C05_iter_spans_valid, C05_split_no_panic, C05_replace_no_panic); the branch stack is bounded (C07_stack_bound); for compiled programs whose Delegate instructions hand over deterministic capture-free blocks (patterns with no conditional under an atomic cut: the scope of the C01 end-to-end theorem) the VM never reaches one of its panic sites, whatever the stack bound, backtrack limit and budget, and every capture slot it reports is unset or a character boundary inside the text (C05_vm_never_panics, C05_vm_offsets_valid). NOT proved: the same for programs that delegate blocks with alternation / repetition / groups, or conditionals under a cut, and SearchOK's 'start at or after the search offset' — validated by running every public entry point of the real crate under catch_unwind on the unrestricted grammar over texts mixing 1-4 byte characters, with the model VM (all panic sites explicit outcomes) tied exactly (result and statistics).",
+        text="PARTIAL. Machine-checked (Coq, closed): at the level of the reference semantics every offset and capture slot of every result of every expression stays on a character boundary within the text (C05_reference_offsets_valid); over any SearchOK search the iterators yield only valid, ordered spans and split / try_replacen never take an out-of-order, out-of-range or off-boundary slice (C05_iter_spans_valid, C05_split_no_panic, C05_replace_no_panic); the branch stack is bounded (C07_stack_bound); for compiled programs whose Delegate instructions hand over deterministic capture-free blocks (patterns with no conditional under an atomic cut: the scope of the C01 end-to-end theorem) the VM never reaches one of its panic sites, whatever the stack bound, backtrack limit and budget, and every capture slot it reports is unset or a character boundary inside the text (C05_vm_never_panics, C05_vm_offsets_valid); and for EVERY compiled program, whatever blocks it delegates, of a pattern without a conditional under an atomic cut, the same two facts hold (C05_vm_never_panics_any_program, C05_vm_offsets_valid_any_program: the stage-2 compiler-correctness theorem against the atomized tree, in which the Delegate instruction on any easy block - alternation, repetition, capture groups - is shown to do what the reference semantics' first result does, by parametricity of the semantics in the capture vector). NOT proved: patterns with a conditional under a cut (F-condleak), and SearchOK's 'start at or after the search offset' — validated by running every public entry point of the real crate under catch_unwind on the unrestricted grammar over texts mixing 1-4 byte characters, with the model VM (all panic sites explicit outcomes) tied exactly (result and statistics).",
         note="Known finding F-keepout-lb (\\K inside a look-behind moves the start before the search start: overlapping matches, split/replace panic) is reported as KNOWN-FINDING. Trusted: Coq kernel, extraction, harness with catch_unwind.",
         technique="Coq invariant over the reference semantics + API-layer safety over SearchOK + differential correspondence under catch_unwind", design="7/C05"),
 })
@@ -95,7 +95,7 @@ CLAIMED.update({
 E2E_SCOPE = "Scope of the end-to-end theorem (stage 1 of the compiler-correctness proof): compiled programs in which every Delegate instruction hands over a DETERMINISTIC capture-free block - a concatenation of character classes, case-insensitive literals, any-char, assertions and literals (the class next to a hard construct, the class inside a look-around, the \\Z helper); in hard context the compiler lowers everything else to VM instructions, and runs of plain literals become one Lit. Programs that delegate a block containing alternation, repetition or capture groups are outside the theorem and patterns in which no conditional sits inside the body of an atomic group, of a look-around or in the condition position of another conditional (the statement is false there: known finding F-condleak; conditionals everywhere else - in loops, groups, alternations, branches of other conditionals - are covered, by an auxiliary-stack relation that tolerates the entry the lowering leaks on the false path); look-behinds over alternations of different lengths are covered (compiled as an alternation / sequence of look-behinds, which is also how the reference semantics reads them). That half of 'regardless of which sub-expressions are handed to the automata engine' is decided by the differential tiers (reference differential of the real crate against the extracted reference semantics, T2 program listing, T3 exact run statistics), not by a theorem."
 CLAIMED.update({
     "C01": dict(
-        text="PARTIAL (see scope). Machine-checked (Coq, Qed, closed under the global context), for EVERY pattern in scope, every valid UTF-8 text < 2^64 bytes, every boundary start offset, every stack bound, backtrack limit and step budget: the model of vm::run (copy-on-write state of vm.rs, bounded stack, limit) executed on the model of compile.rs's output for (?s:.)*?(RE) reports Match only with exactly the capture vector (hence span) of the reference search - the first result, in priority order, of the list-monad reference semantics - reports NoMatch only if the reference has no result, never reaches a panic site, and otherwise returns StackOverflow / BacktrackLimitExceeded (C01_vm_follows_reference). It is assembled from: compiler correctness for every construct by structural induction (seg_all: the code of ANY sub-expression arrives at its exit exactly as often, in the same order, with the same offsets and capture slots as the reference semantics lists results, keeps the auxiliary stack and foreign slots, then fails back; loops by induction on fuel/count using the C13 size soundness for progress), the bounded interpreter following the unbounded small-step machine (RunCorrect), the C20 state refinement lifted to whole runs (run_sim), and - for Delegate instructions - the theorem that the continuation-passing semantics the Delegate oracle and the checks evaluate is the list semantics read by 'first accepted result' for every construct (semk_sem, C01_reference_forms_agree). The hypotheses have an executable form (in_scope, shown sound: C01_in_scope) that every run evaluates on every generated pattern; the evidence reports the share of VM-compiled patterns inside the theorem (about 70% of the quick tier's). Ties: T2 (model compiler output = real compiler output incl. delegate pattern strings, analysis facts through the hook), T3 (model VM = real vm::run result and exact statistics), and the real search API against the extracted reference semantics on the generated pattern x text x offset space. " + E2E_SCOPE,
+        text="PARTIAL (see scope). Machine-checked (Coq, Qed, closed under the global context), for EVERY pattern in scope, every valid UTF-8 text < 2^64 bytes, every boundary start offset, every stack bound, backtrack limit and step budget: the model of vm::run (copy-on-write state of vm.rs, bounded stack, limit) executed on the model of compile.rs's output for (?s:.)*?(RE) reports Match only with exactly the capture vector (hence span) of the reference search - the first result, in priority order, of the list-monad reference semantics - reports NoMatch only if the reference has no result, never reaches a panic site, and otherwise returns StackOverflow / BacktrackLimitExceeded (C01_vm_follows_reference). It is assembled from: compiler correctness for every construct by structural induction (seg_all: the code of ANY sub-expression arrives at its exit exactly as often, in the same order, with the same offsets and capture slots as the reference semantics lists results, keeps the auxiliary stack and foreign slots, then fails back; loops by induction on fuel/count using the C13 size soundness for progress), the bounded interpreter following the unbounded small-step machine (RunCorrect), the C20 state refinement lifted to whole runs (run_sim), and - for Delegate instructions - the theorem that the continuation-passing semantics the Delegate oracle and the checks evaluate is the list semantics read by 'first accepted result' for every construct (semk_sem, C01_reference_forms_agree). The hypotheses have an executable form (in_scope, shown sound: C01_in_scope) that every run evaluates on every generated pattern; the evidence reports the share of VM-compiled patterns inside the theorem (about 70% of the quick tier's). For EVERY compiled program (any Delegate instruction) the VM is proved equal to the reference search over the ATOMIZED tree - each delegated block made atomic - (C01_vm_implements_atomized: seg_allD, step_delegate, param, visit_okdeleg2), which leaves a purely semantic gap (making those blocks atomic does not change the first result: arrow A). Ties: T2 (model compiler output = real compiler output incl. delegate pattern strings, analysis facts through the hook), T3 (model VM = real vm::run result and exact statistics), and the real search API against the extracted reference semantics on the generated pattern x text x offset space. " + E2E_SCOPE,
         note="Trusted: Coq kernel; extraction (ExtrOcamlBasic) + ocaml/driver.ml; Rust harness and hooks; oracle data for character classes on the harness alphabet; regex-automata as the oracle inside Delegate (leftmost-first on delegated blocks). Known finding F1 (nullable unbounded repeat inside a delegated block) is reported as KNOWN-FINDING.",
         technique="Coq structural induction over Expr with a generator judgement over a small-step machine (compiler correctness), fuel/count induction for the five repeat lowerings, lock-step lemmas bounded/unbounded and L0/L1, + differential correspondence (T2/T3) and reference differential of the real crate",
         design="7/C01, 6"),
